@@ -382,7 +382,7 @@ var c15Queries = []string{"", "name=Q-name&tags%5B%5D=Q1", "name=Q-name&tags%5B%
 
 func TestC15(t *testing.T) {
 	h := hh.Start(t, "C15",
-		"exhaustive product: method {GET, HEAD, POST, PUT, PATCH, DELETE, OPTIONS, FOO} x Content-Type (absent, JSON / urlencoded with and without parameters in both documented spellings, other and look-alike media types) x body (valid JSON objects, {}, null-valued fields, non-objects, truncated, empty, valid forms, forms with bad escapes / semicolons / empty values) x query string (absent, single, repeated, []-suffixed, missing [] key, bad escape), also after a middleware called r.ParseForm / r.FormValue (incl. well-formed multipart bodies); every source carries distinct sentinel values and recording coercers report the raw value handed to each field; plus random requests from the same grammar; non-trivial = a body method with a Content-Type, an undecodable body, or a list-valued parameter; every enumerated request is distinct",
+		"exhaustive product: method {GET, HEAD, POST, PUT, PATCH, DELETE, OPTIONS, FOO} x Content-Type (absent, JSON / urlencoded with and without parameters in both documented spellings, other and look-alike media types) x body (valid JSON objects, {}, null-valued fields, non-objects, truncated, empty, valid forms, forms with bad escapes / semicolons / empty values; JSON documents padded with JSON white space and look-alikes before, after and inside) x query string (absent, single, repeated, []-suffixed, missing [] key, bad escape), also after a middleware called r.ParseForm / r.FormValue (incl. well-formed multipart bodies); every source carries distinct sentinel values and recording coercers report the raw value handed to each field; plus random requests from the same grammar; non-trivial = a body method with a Content-Type, an undecodable body, or a list-valued parameter; every enumerated request is distinct",
 		"expected source from the statement's dispatch table (net/http decides which methods read a form body); undecodable body => exactly one invalid_json / invalid_form issue at $root, no schema callback ran, destination equal to its sentinel pre-fill; {} => every field absent (required fields report required); repeated or []-suffixed => list, single => string, missing => absent",
 		"Content-Type spellings outside <media-type>[; parameter=value] (upper case, space before ';') and JSON followed by trailing data are outside the documented domain (skipped)")
 	defer h.Finish()
